@@ -690,6 +690,16 @@ Section Ops.
     - cbn [fst]. apply rawA_push_slot; [apply rawA_refl|]. apply AllOk_refs. exact (slot_k_AllOk _ _ _ Hi E).
   Qed.
 
+  Lemma raw_take nl : RawA (fst (ex_take s i nl)).
+  Proof.
+    unfold ex_take. destruct (get_slot s i) as [o|] eqn:E; [|auto with c16].
+    destruct (_ || _); [|auto with c16].
+    pose proof (get_slot_AllOk i o Hi E) as A0.
+    destruct (ohs o) as [|v [|n [|]]] eqn:Eh; auto with c16; destruct nl; auto with c16; cbn [fst];
+      (app_set; [apply rawA_refl|]); destruct (okind o =? 4); one_ref;
+      first [apply (A0 v); left; reflexivity | apply (A0 n); right; left; reflexivity].
+  Qed.
+
   (* operations with a second operand slot *)
   Section Binary.
   Variable a : nat.
@@ -752,13 +762,13 @@ Theorem exec_rawA s p : Inv s -> RawA s (opA s p) (opT p) (fst (exec s p)).
 Proof.
   intros I. pose proof (opA_incl s p) as HA. revert HA.
   unfold exec, opA, opT. destruct p as [cd a b c tid data zb zc]. cbn [o_code o_a o_b o_c o_data o_zb o_zc].
-  do 26 (destruct cd as [|cd];
+  do 28 (destruct cd as [|cd];
     [intros HA;
      first [apply raw_new_std | apply raw_new_cust | apply raw_new_mut | apply raw_clone | apply raw_slice | apply raw_drop
            | apply raw_into_mutable | apply raw_freeze | apply raw_into_vec | apply raw_wrap_arr | apply raw_wrap_bits
            | apply raw_wrap_barr | apply raw_unary | apply raw_finish | apply raw_write | apply raw_bit_assign
            | apply raw_ex_export | apply raw_ex_import | apply raw_claim | (apply raw_stream_new; [| |intros ->]) | apply raw_stream_next
-           | apply raw_ex_truncate | (destruct (slot_k s a 2); apply raw_write)];
+           | apply raw_ex_truncate | apply raw_take | (destruct (slot_k s a 2); apply raw_write)];
      auto with datatypes|]).
   intros HA. apply rawA_refl; auto.
 Qed.
